@@ -347,6 +347,7 @@ func muxSetup(s *rt.Sim, tier string) func() {
 func muxAdvSetup(s *rt.Sim, tier string) func() {
 	schedCfg(s, true)
 	s.Cfg.MaxSteps = 20000
+	s.Cfg.MaxStall = 30 * time.Second
 	s.Cfg.Horizon = 2 * time.Hour
 	return func() {
 		cfg := drawNetCfg(false)
